@@ -283,7 +283,7 @@ inductive RuleErr where
   deriving DecidableEq, Repr, Inhabited
 
 def RuleErr.ofRead : ReadErr → RuleErr
-  | .reader => .reader | .notImplemented => .notImplemented | .shape => .shape | .internal => .internal
+  | .reader => .reader | .notImplemented => .notImplemented | .shape => .shape
 
 /-- an edit statement as the tree gives it -/
 inductive RawEdit where
